@@ -55,6 +55,11 @@ def run(chk):
                                             'stix2/canonicalization/Canonicalize.py::canonicalize', 'stix2/canonicalization/NumberToJson.py::convert2Es6Format'], allow=('_JSON_ESCAPE_MAP',)):
         chk.lemmas.append(ob)
         if ob.result != 'discharged': chk.violation('frame#' + ob.clause.split('::')[1].split(':')[0], 'frame obligation fails: ' + ob.clause, {}, no_input=True)
+    # the canonical JSON the identifier is derived from: the contracts of the canonicalizer (shared with C16) are obligations of this property too
+    from contracts import canonical as KC
+    KC.run_number_contract(chk, chk.tier, SRC_ROOT)
+    KC.string_obligations(chk)
+    KC.structure_obligations(chk, SRC_ROOT)
     if str(stix2.base.SCO_DET_ID_NAMESPACE) != NAMESPACE:
         chk.violation('namespace#constant', f'SCO_DET_ID_NAMESPACE is {stix2.base.SCO_DET_ID_NAMESPACE}, the specification says {NAMESPACE}', {})
     frozen = T.frozen('2.1')
